@@ -25,17 +25,18 @@ from props.c05 import (
 READY = True
 MANIFEST = dict(
     text='Proof (Lean 4, over the reals, same definitions as the Float driver): nested logit with all mu_m = 1 equals logit; a cross-nested logit whose '
-    'alternatives each belong wholly (alpha = 1) to one nest equals the nested logit (disjoint nests, 0/1 availabilities); explicit scale 1 equals the unscaled '
-    'nested / cross-nested model; legacy tuple syntax converts to the same validated nest object as nest objects (same ln G_i, probabilities, errors); '
-    'check_partition accepts only pairwise disjoint nests; the expression of get_mev_generating_for_nested is G(exp V) and '
-    'HasDerivAt (fun t => G (update y i t)) (exp (ln G_i)) (y i) at y = exp V for every alternative that is alone or an available member of a nest '
-    '(availability-conditioned nest sums, alone alternatives contribute y_i). '
+    'alternatives each belong to one nest only equals the nested logit on V_i + log(alpha_i) (alpha = 1: the degenerate case of the property), with and without explicit scale '
+    '(disjoint nests, 0/1 availabilities); explicit scale 1 equals the unscaled nested / cross-nested model; legacy tuple syntax converts to the same validated nest object as nest '
+    'objects (same ln G_i, probabilities, errors); check_partition accepts only pairwise disjoint nests that do not meet the alone alternatives; the expression of '
+    'get_mev_generating_for_nested is G(exp V) and HasDerivAt (fun t => G (update y i t)) (exp (ln G_i)) (y i) at y = exp V for every alternative that is alone or an available '
+    'member of a nest (availability-conditioned nest sums, alone alternatives contribute y_i). '
     'Tie: pairs of real model functions compared with each other on generated configurations, numerical gradient of the real generating function against the real ln G_i, '
-    'values compared with the Lean model.',
+    'Euler relation P_i = y_i G_i / G on the three real functions (validated only), values compared with the Lean model.',
     design='DESIGN.md §5 C06',
     technique='Lean 4 theorems (Mathlib HasDerivAt, rpow) over an executable semantic model + differential correspondence between pairs of real model functions and with the model',
     note='Trusted: real vs IEEE arithmetic, engine evaluation. A nest that lists the same alternative twice is not refused by check_partition (hypothesis Nodup of the theorems). '
-    'F07 (alone alternatives contributed V_i instead of exp V_i to the generating function) is fixed in the repository and re-checked on every run.',
+    'F07 (alone alternatives contributed V_i instead of exp V_i to the generating function) is fixed in the repository and re-checked on every run. '
+    'The published generating function keeps y_i of an unavailable alone alternative (the kernel ignores it): the Euler relation is checked on rows without such an alternative.',
 )
 TRUSTED = [
     'real arithmetic vs IEEE doubles (comparison tolerance 1e-9; numerical gradient by central differences, tolerance 1e-6)',
